@@ -57,6 +57,24 @@ def _class_shape(ctx: Ctx, c: Collector, qn: str) -> None:
                     okm = False
             if not okm:
                 pr.append(f"hand-written {m} does not agree with __lt__ and == (for equal / ordered operands it gives the wrong answer or is not understood)")
+    # a hand-written == / hash must identify exactly what the generated one identifies: every field
+    # (two delays with equal tiers but different cutoffs are different delays)
+    fields = set(ci.fields)
+    for m in ("__eq__", "__hash__"):
+        if m in own and fields:
+            mfi = ci.methods[m]
+            ms = summarise(ctx.prog, mfi)
+            me = T.var(mfi.params[0])
+            rv = folded_return(ms)
+            read = T.fields_of((rv,), me) if rv is not None else set()
+            whole = rv is not None and any(x[0] == "call" and x[1][0] == "glob" and x[1][1].endswith(("astuple", "asdict")) for x in T.subterms((rv,)))
+            missing = sorted(fields - read)
+            if m == "__eq__" and missing and not whole:
+                pr.append(f"hand-written __eq__ ignores {', '.join(missing)}: values that differ only there compare equal (for delays: equal tiers, different cutoff -- one of them is strictly smaller), "
+                          "so ==, <=, >= and update_min treat different delays as the same")
+            if m == "__hash__" and "__eq__" not in own and missing and not whole:
+                pr.append(f"hand-written __hash__ ignores {', '.join(missing)} (only a performance matter while == is field equality)")
+                pr.pop()
     c.add("class", qn, "total_ordering+frozen dataclass", VIOLATED if pr else DISCHARGED, "; ".join(pr), f"{ci.module.relpath}:{ci.node.lineno}")
 
 
@@ -431,7 +449,7 @@ def _contradictions(ctx: Ctx, c: Collector) -> None:
     equal to A (e.g. `s < o` then `o > s`): the second branch can never be taken."""
     nfun = 0
     hits = 0
-    for fi in ctx.prog.all_functions():
+    for fi in analysis_units(ctx.prog):
         if isinstance(fi.node, ast.Lambda):
             continue
         nfun += 1
